@@ -1,3 +1,723 @@
-/- C11 (statements are being added) -/
+/-
+  C11 — constraint refinements can be declared in any order.
+
+  Part A (abstract, proved): guarded update systems commute under any permutation when every op
+  guards what it writes and the conflict relation is symmetric — the side conditions are exactly the
+  facts `writes_guarded` / `conflict_symmetric` that D42/Gen/Guards.lean re-decides on the guard table
+  extracted from the Python source on every run.
+
+  Part B (to prove): the same statement for the concrete declaration model `declScalar`, for every
+  scalar type, every list of non-value refinements of any length, every argument of any type.
+-/
 import D42.Model.Decl
 import D42.Gen.Guards
+
+namespace D42.GuardedUpdate
+
+abbrev Name := Nat
+abbrev Props := Name → Option Int
+structure Op where
+  ok  : Bool
+  U   : List Name
+  D   : List (Name × Int)
+
+def declared (s : Props) (n : Name) : Bool := (s n).isSome
+def write (s : Props) (D : List (Name × Int)) : Props := fun n => match D.lookup n with | some v => some v | none => s n
+def free (s : Props) (r : Op) : Prop := ∀ n ∈ r.U, declared s n = false
+instance (s r) : Decidable (free s r) := by unfold free; infer_instance
+def apply (s : Props) (r : Op) : Option Props := if r.ok = true ∧ free s r then some (write s r.D) else none
+def run (s : Props) : List Op → Option Props
+  | [] => some s
+  | r :: rs => (apply s r).bind (fun s' => run s' rs)
+def Op.names (r : Op) : List Name := r.D.map (·.1)
+def conflict (a b : Op) : Prop := ∃ n ∈ a.names, n ∈ b.U
+
+theorem lookup_isSome_iff (D : List (Name × Int)) (n : Name) : (D.lookup n).isSome = true ↔ n ∈ D.map (·.1) := by
+  induction D with
+  | nil => simp
+  | cons p D ih =>
+    obtain ⟨a, b⟩ := p
+    simp only [List.lookup_cons, List.map_cons, List.mem_cons]
+    by_cases h : n = a
+    · subst h; simp
+    · have : (n == a) = false := by simpa using h
+      simp [this, ih, h]
+
+theorem declared_write (s : Props) (D) (n) : declared (write s D) n = (declared s n || (D.lookup n).isSome) := by
+  unfold declared write; cases h : D.lookup n <;> simp
+
+theorem free_write_iff (s : Props) (x y : Op) (hy : free s y) : free (write s x.D) y ↔ ¬ conflict x y := by
+  unfold conflict Op.names free at *
+  constructor
+  · rintro h ⟨n, hn, hnu⟩
+    have := h n hnu
+    rw [declared_write, (lookup_isSome_iff _ _).2 hn] at this
+    simp at this
+  · intro h n hn
+    rw [declared_write, hy n hn]
+    cases hl : (x.D.lookup n).isSome
+    · rfl
+    · exact absurd ⟨n, (lookup_isSome_iff _ _).1 hl, hn⟩ h
+
+theorem free_mono (s : Props) (x y : Op) (h : free (write s x.D) y) : free s y := by
+  intro n hn
+  have := h n hn
+  rw [declared_write] at this
+  cases hd : declared s n <;> simp_all
+
+theorem write_comm (s : Props) (a b : Op) (hDb : ∀ n ∈ b.names, n ∈ b.U) (hc : ¬ conflict a b) :
+    write (write s a.D) b.D = write (write s b.D) a.D := by
+  funext n
+  unfold write
+  cases hla : a.D.lookup n <;> cases hlb : b.D.lookup n <;> simp
+  exact absurd ⟨n, (lookup_isSome_iff _ _).1 (by simp [hla]), hDb n ((lookup_isSome_iff _ _).1 (by simp [hlb]))⟩ hc
+
+theorem swap_ok (s : Props) (a b : Op)
+    (hsym : conflict a b ↔ conflict b a) (hDb : ∀ n ∈ b.names, n ∈ b.U) :
+    (apply s a).bind (fun s' => apply s' b) = (apply s b).bind (fun s' => apply s' a) := by
+  unfold apply
+  by_cases ha : a.ok = true <;> by_cases hb : b.ok = true <;>
+    by_cases hfa : free s a <;> by_cases hfb : free s b <;>
+    simp only [ha, hb, hfa, hfb, and_true, and_false, true_and, false_and, if_true, if_false,
+      Option.bind_some, Option.bind_none, Option.bind] <;>
+    (try (have h1 := free_write_iff s a b hfb; have h2 := free_write_iff s b a hfa
+          by_cases hc : conflict a b
+          · have hc' := hsym.1 hc
+            have n1 : ¬ free (write s a.D) b := fun h => (h1.1 h) hc
+            have n2 : ¬ free (write s b.D) a := fun h => (h2.1 h) hc'
+            simp [n1, n2]
+          · have hc' : ¬ conflict b a := fun h => hc (hsym.2 h)
+            simp [h1.2 hc, h2.2 hc', write_comm s a b hDb hc])) <;>
+    (try (have n1 : ¬ free (write s a.D) b := fun h => hfb (free_mono s a b h); simp [n1])) <;>
+    (try (have n2 : ¬ free (write s b.D) a := fun h => hfa (free_mono s b a h); simp [n2])) <;>
+    (try simp)
+
+/-- **guarded updates commute under every permutation** -/
+theorem run_perm (l l' : List Op) (hp : l.Perm l')
+    (hD : ∀ r ∈ l, ∀ n ∈ r.names, n ∈ r.U)
+    (hsym : ∀ a ∈ l, ∀ b ∈ l, (conflict a b ↔ conflict b a)) : ∀ s, run s l = run s l' := by
+  induction hp with
+  | nil => intro s; rfl
+  | cons x _ ih =>
+    intro s; simp only [run]
+    cases apply s x with
+    | none => rfl
+    | some s' => simp only [Option.bind_some]; exact ih (fun r hr => hD r (List.mem_cons_of_mem _ hr)) (fun a ha b hb => hsym a (List.mem_cons_of_mem _ ha) b (List.mem_cons_of_mem _ hb)) s'
+  | swap x y l =>
+    intro s
+    simp only [run]
+    have := swap_ok s y x (hsym y (by simp) x (by simp)) (hD x (by simp))
+    have e1 : (apply s y).bind (fun s' => (apply s' x).bind fun s'' => run s'' l) = ((apply s y).bind (fun s' => apply s' x)).bind (fun s'' => run s'' l) := by
+      cases apply s y <;> simp
+    have e2 : (apply s x).bind (fun s' => (apply s' y).bind fun s'' => run s'' l) = ((apply s x).bind (fun s' => apply s' y)).bind (fun s'' => run s'' l) := by
+      cases apply s x <;> simp
+    rw [e1, e2, this]
+  | trans h1 h2 ih1 ih2 =>
+    intro s
+    have hD' := fun r hr => hD r (h1.mem_iff.2 hr)
+    have hsym' := fun a ha b hb => hsym a (h1.mem_iff.2 ha) b (h1.mem_iff.2 hb)
+    rw [ih1 hD hsym s, ih2 hD' hsym' s]
+
+end D42.GuardedUpdate
+
+namespace D42
+
+/-! ### Part B — the concrete declaration model (to prove) -/
+
+/-- the value-fixing calls; everything else is a "non-value refinement" -/
+def Op.isValue : Op → Bool
+  | .call _ => true
+  | .anyCall _ => true
+  | _ => false
+
+/-- a chain of refinements on a scalar schema -/
+def runScalar : ScalarS → List Op → Except PyExc ScalarS
+  | k, [] => .ok k
+  | k, op :: ops => match declScalar k op with
+    | .ok k' => runScalar k' ops
+    | .error e => .error e
+
+/-- "the same outcome": both orders are rejected, or both succeed and yield the same schema -/
+def SameOutcome (a b : Except PyExc ScalarS) : Prop :=
+  match a, b with
+  | .ok x, .ok y => x = y
+  | .error _, .error _ => True
+  | _, _ => False
+
+theorem SameOutcome_err (e1 e2 : PyExc) : SameOutcome (.error e1) (.error e2) := by simp [SameOutcome]
+
+theorem SameOutcome_symm {x y : Except PyExc ScalarS} (h : SameOutcome x y) : SameOutcome y x := by
+  cases x <;> cases y <;> simp_all [SameOutcome]
+
+/-- constructor tag of a scalar schema -/
+def ScalarS.tag : ScalarS → Nat
+  | .none => 0 | .bool _ => 1 | .int .. => 2 | .float .. => 3 | .str .. => 4
+  | .bytes _ => 5 | .uuid4 _ => 6 | .datetime _ => 7 | .date _ => 8
+
+/-- does the type with this tag have the (non-value) method? -/
+def supported : Nat → Op → Bool
+  | 2, .min _ => true
+  | 2, .max _ => true
+  | 3, .min _ => true
+  | 3, .max _ => true
+  | 3, .precision _ => true
+  | 4, .len _ _ => true
+  | 4, .alphabet _ => true
+  | 4, .contains _ => true
+  | 4, .regex _ => true
+  | _, _ => false
+
+theorem unsupported_err (k : ScalarS) (op : Op) (hnv : op.isValue = false) (h : supported k.tag op = false) :
+    declScalar k op = .error .attributeError := by
+  cases k <;> cases op <;> first | rfl | (exfalso; simp [Op.isValue] at hnv; done) | (exfalso; simp [supported, ScalarS.tag] at h; done)
+
+
+/-! equation lemmas for the supported non-value methods -/
+
+theorem int_min (v mn mx : Option Int) (a : Arg) : declScalar (.int v mn mx) (.min a) =
+    (match argInt a with
+     | none => DErr
+     | some n => if mn.isSome then DErr else
+        (match v with | some x => if n > x then DErr else .ok (.int v (some n) mx) | none => .ok (.int v (some n) mx))) := rfl
+
+theorem int_max (v mn mx : Option Int) (a : Arg) : declScalar (.int v mn mx) (.max a) =
+    (match argInt a with
+     | none => DErr
+     | some n => if mx.isSome then DErr else
+        (match v with | some x => if n < x then DErr else .ok (.int v mn (some n)) | none => .ok (.int v mn (some n)))) := rfl
+
+theorem float_min (v mn mx : Option PyFloat) (p : Option Nat) (d1 d2 : Option Rat) (a : Arg) :
+    declScalar (.float v mn mx p d1 d2) (.min a) =
+    (match argFloat a with
+     | none => DErr
+     | some f => if mn.isSome then DErr else
+        (match v with
+         | some x => if !(PyFloat.le f x) then DErr else .ok (.float v (some f) mx p none d2)
+         | none => .ok (.float v (some f) mx p none d2))) := rfl
+
+theorem float_max (v mn mx : Option PyFloat) (p : Option Nat) (d1 d2 : Option Rat) (a : Arg) :
+    declScalar (.float v mn mx p d1 d2) (.max a) =
+    (match argFloat a with
+     | none => DErr
+     | some f => if mx.isSome then DErr else
+        (match v with
+         | some x => if !(PyFloat.ge f x) then DErr else .ok (.float v mn (some f) p d1 none)
+         | none => .ok (.float v mn (some f) p d1 none))) := rfl
+
+theorem float_precision (v mn mx : Option PyFloat) (p : Option Nat) (d1 d2 : Option Rat) (a : Arg) :
+    declScalar (.float v mn mx p d1 d2) (.precision a) =
+    (match argInt a with
+     | none => DErr
+     | some n => if !(1 ≤ n && n ≤ (Consts.FLOAT_DIG : Int)) then DErr
+        else if p.isSome then DErr else .ok (.float v mn mx (some n.toNat) d1 d2)) := rfl
+
+/-- the `len(...)` dispatch on a str schema: reads only the fixed value, the length props and its arguments -/
+def strLen (v : Option Str) (L : LenP) (a b : Arg) : Except PyExc LenP :=
+  declLenDispatch (strDeclLen v) (strDeclMin v) (strDeclMax v) L a b
+
+theorem str_len (v : Option Str) (L : LenP) (al sub : Option Str) (pat : Option Pat) (a b : Arg) :
+    declScalar (.str v L al sub pat) (.len a b) =
+    (if L.anySet || pat.isSome then DErr else
+      match strLen v L a b with
+      | .ok L' => .ok (.str v L' al sub pat)
+      | .error e => .error e) := by
+  simp only [declScalar, strLen]
+  split
+  · rfl
+  · cases declLenDispatch (strDeclLen v) (strDeclMin v) (strDeclMax v) L a b <;> rfl
+
+theorem str_alphabet (v : Option Str) (L : LenP) (al sub : Option Str) (pat : Option Pat) (a : Arg) :
+    declScalar (.str v L al sub pat) (.alphabet a) =
+    (match argStr a with
+     | none => DErr
+     | some letters => if al.isSome then DErr else if pat.isSome then DErr else
+        (match v with
+         | some s => if s.all (fun c => letters.contains c) then .ok (.str v L (some letters) sub pat) else DErr
+         | none => .ok (.str v L (some letters) sub pat))) := rfl
+
+theorem str_contains (v : Option Str) (L : LenP) (al sub : Option Str) (pat : Option Pat) (a : Arg) :
+    declScalar (.str v L al sub pat) (.contains a) =
+    (match argStr a with
+     | none => DErr
+     | some x => if sub.isSome then DErr else if pat.isSome then DErr else
+        (match v with
+         | some s => if isInfixB x s then .ok (.str v L al (some x) pat) else DErr
+         | none => .ok (.str v L al (some x) pat))) := rfl
+
+/-- the argument of `regex` when it is a pattern string -/
+def regexArg : Arg → Option (Bool × Pat × Bool)
+  | .pat c p m => some (c, p, m)
+  | _ => none
+
+theorem str_regex (v : Option Str) (L : LenP) (al sub : Option Str) (pat : Option Pat) (a : Arg) :
+    declScalar (.str v L al sub pat) (.regex a) =
+    (match regexArg a with
+     | none => DErr
+     | some (compiles, p, m) =>
+        if pat.isSome || al.isSome || L.anySet || sub.isSome then DErr
+        else if !compiles then DErr
+        else (match v with
+          | some _ => if m then .ok (.str v L al sub (some p)) else DErr
+          | none => .ok (.str v L al sub (some p)))) := by
+  cases a <;> rfl
+
+theorem strDeclLen_set (v : Option Str) (L L' : LenP) (a : Arg) (h : strDeclLen v L a = .ok L') :
+    L'.anySet = true := by
+  unfold strDeclLen at h
+  repeat' split at h
+  all_goals (try simp at h)
+  all_goals (subst h; simp [LenP.anySet])
+
+theorem strDeclMin_set (v : Option Str) (L L' : LenP) (a : Arg) (h : strDeclMin v L a = .ok L') :
+    L'.anySet = true := by
+  unfold strDeclMin at h
+  repeat' split at h
+  all_goals (try simp at h)
+  all_goals (subst h; simp [LenP.anySet])
+
+theorem strDeclMax_set (v : Option Str) (L L' : LenP) (a : Arg) (h : strDeclMax v L a = .ok L') :
+    L'.anySet = true := by
+  unfold strDeclMax at h
+  repeat' split at h
+  all_goals (try simp at h)
+  all_goals (subst h; simp [LenP.anySet])
+
+theorem strLen_anySet (v : Option Str) (L L' : LenP) (a b : Arg) (h : strLen v L a b = .ok L') :
+    L'.anySet = true := by
+  unfold strLen declLenDispatch at h
+  split at h
+  · exact strDeclMax_set _ _ _ _ h
+  · split at h
+    · exact strDeclLen_set _ _ _ _ h
+    · split at h
+      · exact strDeclMin_set _ _ _ _ h
+      · cases h1 : strDeclMin v L a with
+        | error e => simp [h1, bind, Except.bind] at h
+        | ok L1 =>
+          simp only [h1, bind, Except.bind] at h
+          exact strDeclMax_set _ _ _ _ h
+
+theorem tag_preserved (k k' : ScalarS) (op : Op) (hnv : op.isValue = false) (h : declScalar k op = .ok k') :
+    k'.tag = k.tag := by
+  by_cases hs : supported k.tag op = false
+  · rw [unsupported_err k op hnv hs] at h; cases h
+  · cases k <;> cases op <;> (try (exfalso; simp [supported, ScalarS.tag] at hs; done)) <;>
+      simp only [int_min, int_max, float_min, float_max, float_precision, str_len, str_alphabet,
+        str_contains, str_regex] at h <;>
+      (repeat' split at h) <;> (try simp at h) <;> (try (subst h; rfl))
+
+theorem swap_unsupported (k : ScalarS) (a b : Op) (ha : a.isValue = false) (hb : b.isValue = false)
+    (hs : supported k.tag a = false) : SameOutcome (runScalar k [a, b]) (runScalar k [b, a]) := by
+  simp only [runScalar, unsupported_err k a ha hs]
+  cases h : declScalar k b with
+  | error e => exact SameOutcome_err _ _
+  | ok k' =>
+    have ht := tag_preserved k k' b hb h
+    simp only [unsupported_err k' a ha (by rw [ht]; exact hs)]
+    exact SameOutcome_err _ _
+
+/-- `runScalar` as a monadic fold -/
+def bindE (x : Except PyExc ScalarS) (f : ScalarS → Except PyExc ScalarS) : Except PyExc ScalarS :=
+  match x with
+  | .ok k => f k
+  | .error e => .error e
+
+@[simp] theorem bindE_ok (k : ScalarS) (f) : bindE (.ok k) f = f k := rfl
+@[simp] theorem bindE_error (e : PyExc) (f) : bindE (.error e) f = .error e := rfl
+@[simp] theorem bindE_ite (c : Prop) [Decidable c] (a b : Except PyExc ScalarS) (f) :
+    bindE (if c then a else b) f = if c then bindE a f else bindE b f := by
+  split <;> rfl
+
+theorem run2 (k : ScalarS) (a b : Op) :
+    runScalar k [a, b] = bindE (declScalar k a) (fun k' => declScalar k' b) := by
+  simp only [runScalar, bindE]
+  cases declScalar k a with
+  | error e => rfl
+  | ok k' => simp only []; cases declScalar k' b <;> rfl
+
+/-! ### int -/
+
+theorem int_min_min (v mn mx : Option Int) (x y : Arg) :
+    SameOutcome (runScalar (.int v mn mx) [.min x, .min y]) (runScalar (.int v mn mx) [.min y, .min x]) := by
+  cases hx : argInt x <;> cases hy : argInt y <;> cases v <;> cases mn <;> cases mx <;>
+    simp [run2, int_min, hx, hy, SameOutcome_err] <;>
+    (repeat' split) <;> simp_all [SameOutcome]
+
+theorem int_max_max (v mn mx : Option Int) (x y : Arg) :
+    SameOutcome (runScalar (.int v mn mx) [.max x, .max y]) (runScalar (.int v mn mx) [.max y, .max x]) := by
+  cases hx : argInt x <;> cases hy : argInt y <;> cases v <;> cases mn <;> cases mx <;>
+    simp [run2, int_max, hx, hy, SameOutcome_err] <;>
+    (repeat' split) <;> simp_all [SameOutcome]
+
+theorem int_min_max (v mn mx : Option Int) (x y : Arg) :
+    SameOutcome (runScalar (.int v mn mx) [.min x, .max y]) (runScalar (.int v mn mx) [.max y, .min x]) := by
+  cases hx : argInt x <;> cases hy : argInt y <;> cases v <;> cases mn <;> cases mx <;>
+    simp [run2, int_min, int_max, hx, hy, SameOutcome_err] <;>
+    (repeat' split) <;> simp_all [SameOutcome]
+
+/-! ### float -/
+
+theorem float_min_min (v mn mx : Option PyFloat) (p : Option Nat) (d1 d2 : Option Rat) (x y : Arg) :
+    SameOutcome (runScalar (.float v mn mx p d1 d2) [.min x, .min y])
+      (runScalar (.float v mn mx p d1 d2) [.min y, .min x]) := by
+  cases hx : argFloat x <;> cases hy : argFloat y <;> cases v <;> cases mn <;> cases mx <;> cases p <;>
+    simp [run2, float_min, hx, hy, SameOutcome_err] <;>
+    (repeat' split) <;> simp_all [SameOutcome]
+
+theorem float_max_max (v mn mx : Option PyFloat) (p : Option Nat) (d1 d2 : Option Rat) (x y : Arg) :
+    SameOutcome (runScalar (.float v mn mx p d1 d2) [.max x, .max y])
+      (runScalar (.float v mn mx p d1 d2) [.max y, .max x]) := by
+  cases hx : argFloat x <;> cases hy : argFloat y <;> cases v <;> cases mn <;> cases mx <;> cases p <;>
+    simp [run2, float_max, hx, hy, SameOutcome_err] <;>
+    (repeat' split) <;> simp_all [SameOutcome]
+
+theorem float_prec_prec (v mn mx : Option PyFloat) (p : Option Nat) (d1 d2 : Option Rat) (x y : Arg) :
+    SameOutcome (runScalar (.float v mn mx p d1 d2) [.precision x, .precision y])
+      (runScalar (.float v mn mx p d1 d2) [.precision y, .precision x]) := by
+  cases hx : argInt x <;> cases hy : argInt y <;> cases v <;> cases mn <;> cases mx <;> cases p <;>
+    simp [run2, float_precision, hx, hy, SameOutcome_err] <;>
+    (repeat' split) <;> simp_all [SameOutcome]
+
+theorem float_min_max (v mn mx : Option PyFloat) (p : Option Nat) (d1 d2 : Option Rat) (x y : Arg) :
+    SameOutcome (runScalar (.float v mn mx p d1 d2) [.min x, .max y])
+      (runScalar (.float v mn mx p d1 d2) [.max y, .min x]) := by
+  cases hx : argFloat x <;> cases hy : argFloat y <;> cases v <;> cases mn <;> cases mx <;> cases p <;>
+    simp [run2, float_max, float_min, hx, hy, SameOutcome_err] <;>
+    (repeat' split) <;> simp_all [SameOutcome]
+
+theorem float_min_prec (v mn mx : Option PyFloat) (p : Option Nat) (d1 d2 : Option Rat) (x y : Arg) :
+    SameOutcome (runScalar (.float v mn mx p d1 d2) [.min x, .precision y])
+      (runScalar (.float v mn mx p d1 d2) [.precision y, .min x]) := by
+  cases hx : argFloat x <;> cases hy : argInt y <;> cases v <;> cases mn <;> cases mx <;> cases p <;>
+    simp [run2, float_min, float_precision, hx, hy, SameOutcome_err] <;>
+    (repeat' split) <;> simp_all [SameOutcome]
+
+theorem float_max_prec (v mn mx : Option PyFloat) (p : Option Nat) (d1 d2 : Option Rat) (x y : Arg) :
+    SameOutcome (runScalar (.float v mn mx p d1 d2) [.max x, .precision y])
+      (runScalar (.float v mn mx p d1 d2) [.precision y, .max x]) := by
+  cases hx : argFloat x <;> cases hy : argInt y <;> cases v <;> cases mn <;> cases mx <;> cases p <;>
+    simp [run2, float_max, float_precision, hx, hy, SameOutcome_err] <;>
+    (repeat' split) <;> simp_all [SameOutcome]
+
+/-! ### str -/
+
+theorem str_len_len (v : Option Str) (L : LenP) (al sub : Option Str) (pat : Option Pat) (a b c d : Arg) :
+    SameOutcome (runScalar (.str v L al sub pat) [.len a b, .len c d])
+      (runScalar (.str v L al sub pat) [.len c d, .len a b]) := by
+  cases hL : L.anySet <;> cases pat <;>
+    simp [run2, str_len, hL, SameOutcome_err]
+  have A1 := fun L' => strLen_anySet v L L' a b
+  have A2 := fun L' => strLen_anySet v L L' c d
+  cases h1 : strLen v L a b <;> cases h2 : strLen v L c d <;> simp_all [SameOutcome_err, str_len]
+
+theorem str_len_alphabet (v : Option Str) (L : LenP) (al sub : Option Str) (pat : Option Pat) (a b x : Arg) :
+    SameOutcome (runScalar (.str v L al sub pat) [.len a b, .alphabet x])
+      (runScalar (.str v L al sub pat) [.alphabet x, .len a b]) := by
+  have A1 := fun L' => strLen_anySet v L L' a b
+  cases hx : argStr x <;> cases h1 : strLen v L a b <;> cases hL : L.anySet <;> cases pat <;>
+    cases al <;> cases sub <;> cases v <;>
+    simp_all [run2, str_len, str_alphabet, SameOutcome_err] <;>
+    (repeat' split) <;> simp_all [SameOutcome]
+
+theorem str_len_contains (v : Option Str) (L : LenP) (al sub : Option Str) (pat : Option Pat) (a b x : Arg) :
+    SameOutcome (runScalar (.str v L al sub pat) [.len a b, .contains x])
+      (runScalar (.str v L al sub pat) [.contains x, .len a b]) := by
+  have A1 := fun L' => strLen_anySet v L L' a b
+  cases hx : argStr x <;> cases h1 : strLen v L a b <;> cases hL : L.anySet <;> cases pat <;>
+    cases al <;> cases sub <;> cases v <;>
+    simp_all [run2, str_len, str_contains, SameOutcome_err] <;>
+    (repeat' split) <;> simp_all [SameOutcome]
+
+theorem str_len_regex (v : Option Str) (L : LenP) (al sub : Option Str) (pat : Option Pat) (a b x : Arg) :
+    SameOutcome (runScalar (.str v L al sub pat) [.len a b, .regex x])
+      (runScalar (.str v L al sub pat) [.regex x, .len a b]) := by
+  have A1 := fun L' => strLen_anySet v L L' a b
+  rcases hx : regexArg x with _ | ⟨cmp_x, p_x, m_x⟩ <;> cases h1 : strLen v L a b <;> cases hL : L.anySet <;> cases pat <;>
+    cases al <;> cases sub <;> cases v <;>
+    simp_all [run2, str_len, str_regex, SameOutcome_err] <;>
+    (repeat' split) <;> simp_all [SameOutcome]
+
+theorem str_alphabet_alphabet (v : Option Str) (L : LenP) (al sub : Option Str) (pat : Option Pat) (x y : Arg) :
+    SameOutcome (runScalar (.str v L al sub pat) [.alphabet x, .alphabet y])
+      (runScalar (.str v L al sub pat) [.alphabet y, .alphabet x]) := by
+  cases hx : argStr x <;> cases hy : argStr y <;> cases hL : L.anySet <;> cases pat <;>
+    cases al <;> cases sub <;> cases v <;>
+    simp_all [run2, str_alphabet, SameOutcome_err] <;>
+    (repeat' split) <;> simp_all [SameOutcome]
+
+theorem str_alphabet_contains (v : Option Str) (L : LenP) (al sub : Option Str) (pat : Option Pat) (x y : Arg) :
+    SameOutcome (runScalar (.str v L al sub pat) [.alphabet x, .contains y])
+      (runScalar (.str v L al sub pat) [.contains y, .alphabet x]) := by
+  cases hx : argStr x <;> cases hy : argStr y <;> cases hL : L.anySet <;> cases pat <;>
+    cases al <;> cases sub <;> cases v <;>
+    simp_all [run2, str_alphabet, str_contains, SameOutcome_err] <;>
+    (repeat' split) <;> simp_all [SameOutcome]
+
+theorem str_alphabet_regex (v : Option Str) (L : LenP) (al sub : Option Str) (pat : Option Pat) (x y : Arg) :
+    SameOutcome (runScalar (.str v L al sub pat) [.alphabet x, .regex y])
+      (runScalar (.str v L al sub pat) [.regex y, .alphabet x]) := by
+  cases hx : argStr x <;> rcases hy : regexArg y with _ | ⟨cmp_y, p_y, m_y⟩ <;> cases hL : L.anySet <;> cases pat <;>
+    cases al <;> cases sub <;> cases v <;>
+    simp_all [run2, str_alphabet, str_regex, SameOutcome_err] <;>
+    (repeat' split) <;> simp_all [SameOutcome]
+
+theorem str_contains_contains (v : Option Str) (L : LenP) (al sub : Option Str) (pat : Option Pat) (x y : Arg) :
+    SameOutcome (runScalar (.str v L al sub pat) [.contains x, .contains y])
+      (runScalar (.str v L al sub pat) [.contains y, .contains x]) := by
+  cases hx : argStr x <;> cases hy : argStr y <;> cases hL : L.anySet <;> cases pat <;>
+    cases al <;> cases sub <;> cases v <;>
+    simp_all [run2, str_contains, SameOutcome_err] <;>
+    (repeat' split) <;> simp_all [SameOutcome]
+
+theorem str_contains_regex (v : Option Str) (L : LenP) (al sub : Option Str) (pat : Option Pat) (x y : Arg) :
+    SameOutcome (runScalar (.str v L al sub pat) [.contains x, .regex y])
+      (runScalar (.str v L al sub pat) [.regex y, .contains x]) := by
+  cases hx : argStr x <;> rcases hy : regexArg y with _ | ⟨cmp_y, p_y, m_y⟩ <;> cases hL : L.anySet <;> cases pat <;>
+    cases al <;> cases sub <;> cases v <;>
+    simp_all [run2, str_contains, str_regex, SameOutcome_err] <;>
+    (repeat' split) <;> simp_all [SameOutcome]
+
+theorem str_regex_regex (v : Option Str) (L : LenP) (al sub : Option Str) (pat : Option Pat) (x y : Arg) :
+    SameOutcome (runScalar (.str v L al sub pat) [.regex x, .regex y])
+      (runScalar (.str v L al sub pat) [.regex y, .regex x]) := by
+  rcases hx : regexArg x with _ | ⟨cmp_x, p_x, m_x⟩ <;> rcases hy : regexArg y with _ | ⟨cmp_y, p_y, m_y⟩ <;> cases hL : L.anySet <;> cases pat <;>
+    cases al <;> cases sub <;> cases v <;>
+    simp_all [run2, str_regex, SameOutcome_err] <;>
+    (repeat' split) <;> simp_all [SameOutcome]
+
+theorem swap_int (v mn mx : Option Int) (a b : Op)
+    (hsa : supported 2 a = true) (hsb : supported 2 b = true) :
+    SameOutcome (runScalar (.int v mn mx) [a, b]) (runScalar (.int v mn mx) [b, a]) := by
+  cases a <;> simp [supported] at hsa <;> cases b <;> simp [supported] at hsb
+  · exact int_min_min ..
+  · exact int_min_max ..
+  · exact SameOutcome_symm (int_min_max ..)
+  · exact int_max_max ..
+
+theorem swap_float (v mn mx : Option PyFloat) (p : Option Nat) (d1 d2 : Option Rat) (a b : Op)
+    (hsa : supported 3 a = true) (hsb : supported 3 b = true) :
+    SameOutcome (runScalar (.float v mn mx p d1 d2) [a, b]) (runScalar (.float v mn mx p d1 d2) [b, a]) := by
+  cases a <;> simp [supported] at hsa <;> cases b <;> simp [supported] at hsb
+  · exact float_min_min ..
+  · exact float_min_max ..
+  · exact float_min_prec ..
+  · exact SameOutcome_symm (float_min_max ..)
+  · exact float_max_max ..
+  · exact float_max_prec ..
+  · exact SameOutcome_symm (float_min_prec ..)
+  · exact SameOutcome_symm (float_max_prec ..)
+  · exact float_prec_prec ..
+
+theorem swap_str (v : Option Str) (L : LenP) (al sub : Option Str) (pat : Option Pat) (a b : Op)
+    (hsa : supported 4 a = true) (hsb : supported 4 b = true) :
+    SameOutcome (runScalar (.str v L al sub pat) [a, b]) (runScalar (.str v L al sub pat) [b, a]) := by
+  cases a <;> simp [supported] at hsa <;> cases b <;> simp [supported] at hsb
+  · exact str_len_len ..
+  · exact str_len_alphabet ..
+  · exact str_len_contains ..
+  · exact str_len_regex ..
+  · exact SameOutcome_symm (str_len_alphabet ..)
+  · exact str_alphabet_alphabet ..
+  · exact str_alphabet_contains ..
+  · exact str_alphabet_regex ..
+  · exact SameOutcome_symm (str_len_contains ..)
+  · exact SameOutcome_symm (str_alphabet_contains ..)
+  · exact str_contains_contains ..
+  · exact str_contains_regex ..
+  · exact SameOutcome_symm (str_len_regex ..)
+  · exact SameOutcome_symm (str_alphabet_regex ..)
+  · exact SameOutcome_symm (str_contains_regex ..)
+  · exact str_regex_regex ..
+
+/-- two adjacent non-value refinements can be swapped — for every scalar type, every pair of methods
+    (min, max, precision; the four len forms, alphabet, contains, regex), every argument of any type,
+    whether or not a value was fixed first -/
+theorem declScalar_swap (k : ScalarS) (a b : Op) (ha : a.isValue = false) (hb : b.isValue = false) :
+    SameOutcome (runScalar k [a, b]) (runScalar k [b, a]) := by
+  by_cases hsa : supported k.tag a = false
+  · exact swap_unsupported k a b ha hb hsa
+  by_cases hsb : supported k.tag b = false
+  · exact SameOutcome_symm (swap_unsupported k b a hb ha hsb)
+  simp only [Bool.not_eq_false] at hsa hsb
+  cases k
+  case int v mn mx => exact swap_int v mn mx a b hsa hsb
+  case float v mn mx p d1 d2 => exact swap_float v mn mx p d1 d2 a b hsa hsb
+  case str v L al sub pat => exact swap_str v L al sub pat a b hsa hsb
+  all_goals (exfalso; cases a <;> simp [supported, ScalarS.tag] at hsa)
+
+theorem SameOutcome_refl (x : Except PyExc ScalarS) : SameOutcome x x := by
+  cases x <;> simp [SameOutcome]
+
+theorem SameOutcome_trans {x y z : Except PyExc ScalarS} (h1 : SameOutcome x y) (h2 : SameOutcome y z) :
+    SameOutcome x z := by
+  cases x <;> cases y <;> cases z <;> simp_all [SameOutcome]
+
+theorem runScalar_cons (k : ScalarS) (op : Op) (ops : List Op) :
+    runScalar k (op :: ops) = bindE (declScalar k op) (fun k' => runScalar k' ops) := by
+  simp only [runScalar, bindE]
+
+theorem runScalar_cons2 (k : ScalarS) (a b : Op) (ops : List Op) :
+    runScalar k (a :: b :: ops) = bindE (runScalar k [a, b]) (fun k' => runScalar k' ops) := by
+  simp only [runScalar, bindE]
+  cases declScalar k a with
+  | error e => rfl
+  | ok k' => simp only []; cases declScalar k' b <;> rfl
+
+theorem SameOutcome_bindE {x y : Except PyExc ScalarS} (h : SameOutcome x y)
+    (f g : ScalarS → Except PyExc ScalarS) (hfg : ∀ k, SameOutcome (f k) (g k)) :
+    SameOutcome (bindE x f) (bindE y g) := by
+  cases x <;> cases y <;> simp_all [SameOutcome, bindE]
+
+theorem decl_perm_all (l l' : List Op) (hp : l.Perm l') (hnv : ∀ op ∈ l, op.isValue = false) :
+    ∀ k : ScalarS, SameOutcome (runScalar k l) (runScalar k l') := by
+  induction hp with
+  | nil => intro k; exact SameOutcome_refl _
+  | cons x _ ih =>
+    intro k
+    rw [runScalar_cons, runScalar_cons]
+    exact SameOutcome_bindE (SameOutcome_refl _) _ _
+      (ih (fun op h => hnv op (List.mem_cons_of_mem _ h)))
+  | swap x y l =>
+    intro k
+    rw [runScalar_cons2 k y x l, runScalar_cons2 k x y l]
+    exact SameOutcome_bindE (declScalar_swap k y x (hnv y (by simp)) (hnv x (by simp))) _ _
+      (fun k' => SameOutcome_refl _)
+  | trans h1 _ ih1 ih2 =>
+    intro k
+    exact SameOutcome_trans (ih1 hnv k) (ih2 (fun op h => hnv op (h1.mem_iff.2 h)) k)
+
+/-- **C11.** Any permutation of any list (of any length) of non-value refinements of one scalar
+    schema gives the same outcome: all orders are rejected, or all succeed with equal schemas. -/
+theorem decl_perm (k : ScalarS) (l l' : List Op) (hp : l.Perm l') (hnv : ∀ op ∈ l, op.isValue = false) :
+    SameOutcome (runScalar k l) (runScalar k l') :=
+  decl_perm_all l l' hp hnv k
+
+/-- the same after fixing a value first -/
+theorem decl_perm_after_value (k : ScalarS) (v : Arg) (l l' : List Op) (hp : l.Perm l')
+    (hnv : ∀ op ∈ l, op.isValue = false) :
+    SameOutcome (runScalar k (.call v :: l)) (runScalar k (.call v :: l')) := by
+  rw [runScalar_cons, runScalar_cons]
+  exact SameOutcome_bindE (SameOutcome_refl _) _ _ (decl_perm_all l l' hp hnv)
+
+/-- non-vacuity: an accepted and a rejected three-element set on `schema.str("ab")` -/
+example : ∃ k, runScalar (.str (some [97, 98]) {} none none none)
+    [.len (.v (.int 2)) .nil, .alphabet (.v (.str [97, 98, 99])), .contains (.v (.str [98]))] = .ok k :=
+  ⟨_, rfl⟩
+
+example : ∃ e, runScalar (.str (some [97, 98]) {} none none none)
+    [.alphabet (.v (.str [97, 98, 99])), .regex (.pat true ⟨0, []⟩ true)] = .error e :=
+  ⟨_, rfl⟩
+
+/-! ### list `len` -/
+
+theorem dispatch_anySet (dl dmin dmax : LenP → Arg → Except PyExc LenP)
+    (hl : ∀ L a L', dl L a = .ok L' → L'.anySet = true)
+    (hmin : ∀ L a L', dmin L a = .ok L' → L'.anySet = true)
+    (hmax : ∀ L a L', dmax L a = .ok L' → L'.anySet = true)
+    (L L' : LenP) (a b : Arg) (h : declLenDispatch dl dmin dmax L a b = .ok L') : L'.anySet = true := by
+  unfold declLenDispatch at h
+  split at h
+  · exact hmax _ _ _ h
+  · split at h
+    · exact hl _ _ _ h
+    · split at h
+      · exact hmin _ _ _ h
+      · cases h1 : dmin L a with
+        | error e => simp [h1, bind, Except.bind] at h
+        | ok L1 =>
+          simp only [h1, bind, Except.bind] at h
+          exact hmax _ _ _ h
+
+theorem listDeclLen_set (el : Option (Nat × Bool)) (L : LenP) (a : Arg) (L' : LenP)
+    (h : listDeclLen el L a = .ok L') : L'.anySet = true := by
+  unfold listDeclLen at h
+  repeat' split at h
+  all_goals (try simp at h)
+  all_goals (subst h; simp [LenP.anySet])
+
+theorem listDeclMin_set (el : Option (Nat × Bool)) (L : LenP) (a : Arg) (L' : LenP)
+    (h : listDeclMin el L a = .ok L') : L'.anySet = true := by
+  unfold listDeclMin at h
+  repeat' split at h
+  all_goals (try simp at h)
+  all_goals (subst h; simp [LenP.anySet])
+
+theorem listDeclMax_set (el : Option (Nat × Bool)) (L : LenP) (a : Arg) (L' : LenP)
+    (h : listDeclMax el L a = .ok L') : L'.anySet = true := by
+  unfold listDeclMax at h
+  repeat' split at h
+  all_goals (try simp at h)
+  all_goals (subst h; simp [LenP.anySet])
+
+theorem listLen_anySet (el : Option (Nat × Bool)) (L L' : LenP) (a b : Arg)
+    (h : declLenDispatch (listDeclLen el) (listDeclMin el) (listDeclMax el) L a b = .ok L') :
+    L'.anySet = true :=
+  dispatch_anySet _ _ _ (listDeclLen_set el) (listDeclMin_set el) (listDeclMax_set el) L L' a b h
+
+theorem scalar_len_twice (k k' : ScalarS) (a b c d : Arg) (hk : declScalar k (.len a b) = .ok k') :
+    ∃ e, declScalar k' (.len c d) = .error e := by
+  by_cases hs : supported k.tag (.len a b) = false
+  · rw [unsupported_err k _ rfl hs] at hk; cases hk
+  · cases k <;> (try (exfalso; simp [supported, ScalarS.tag] at hs; done))
+    case str v L al sub pat =>
+      rw [str_len] at hk
+      split at hk
+      · cases hk
+      · cases h1 : strLen v L a b with
+        | error e => simp [h1] at hk
+        | ok L1 =>
+          simp only [h1] at hk
+          cases hk
+          exact ⟨.declarationError, by rw [str_len]; simp [strLen_anySet _ _ _ _ _ h1]⟩
+
+/-- list schemas have a single non-value refinement (`len`), so its orders are trivially the same; the
+    interesting fact is that `len` commutes with nothing else being declarable twice -/
+theorem list_len_twice_rejected (s s' : Schema) (a b c d : Arg)
+    (h : Decl.apply s (.len a b) = .ok s') : ∃ e, Decl.apply s' (.len c d) = .error e := by
+  cases s with
+  | scalar k =>
+    simp only [Decl.apply] at h
+    cases hk : declScalar k (.len a b) with
+    | error e => simp [hk, bind, Except.bind] at h
+    | ok k' =>
+      simp [hk, bind, Except.bind, pure, Except.pure] at h
+      subst h
+      obtain ⟨e, he⟩ := scalar_len_twice k k' a b c d hk
+      exact ⟨e, by simp [Decl.apply, he, bind, Except.bind]⟩
+  | listU L =>
+    simp only [Decl.apply] at h
+    split at h
+    · cases h
+    · cases h1 : declLenDispatch (listDeclLen none) (listDeclMin none) (listDeclMax none) L a b with
+      | error e => simp [h1, bind, Except.bind] at h
+      | ok L1 =>
+        simp [h1, bind, Except.bind, pure, Except.pure] at h
+        subst h
+        exact ⟨.declarationError, by simp [Decl.apply, listLen_anySet _ _ _ _ _ h1]⟩
+  | listT t L =>
+    simp only [Decl.apply] at h
+    split at h
+    · cases h
+    · cases h1 : declLenDispatch (listDeclLen none) (listDeclMin none) (listDeclMax none) L a b with
+      | error e => simp [h1, bind, Except.bind] at h
+      | ok L1 =>
+        simp [h1, bind, Except.bind, pure, Except.pure] at h
+        subst h
+        exact ⟨.declarationError, by simp [Decl.apply, listLen_anySet _ _ _ _ _ h1]⟩
+  | listE lead es trail L =>
+    simp only [Decl.apply] at h
+    split at h
+    · cases h
+    · cases h1 : declLenDispatch (listDeclLen (some (es.length, lead || trail)))
+          (listDeclMin (some (es.length, lead || trail))) (listDeclMax (some (es.length, lead || trail))) L a b with
+      | error e => simp [h1, bind, Except.bind] at h
+      | ok L1 =>
+        simp [h1, bind, Except.bind, pure, Except.pure] at h
+        subst h
+        exact ⟨.declarationError, by simp [Decl.apply, listLen_anySet _ _ _ _ _ h1]⟩
+  | dict f e => simp [Decl.apply] at h
+  | any ts => simp [Decl.apply] at h
+  | alias n t => simp [Decl.apply] at h
+  | custom t => simp [Decl.apply] at h
+
+end D42
